@@ -635,7 +635,7 @@ void run_driver_direct(Engine& E, verif::Rng& r, Case& c, FieldT const& field, b
         }
         if (untestable)
         {
-            E.rep.inconclusive("untestable: integration accuracy not controlled (step <= minimum_step over a large turn angle, or Dormand-Prince with epsilon_rel_max > 2e-3)");
+            E.rep.inconclusive("untestable: integration accuracy not controlled (step <= minimum_step over a large turn angle, or Dormand-Prince with epsilon_rel_max > 1.5e-3)");
         }
         else
         {
@@ -813,7 +813,7 @@ int main(int argc, char** argv)
         "result), K = 1.6 max(1,(eps/1e-4)^0.6) for Dormand-Prince (from the published DOPRI5 amplification "
         "polynomial on circular motion; measured <= 8.5 at eps 4.3e-3), exact for ZHelix; accumulated over an "
         "advance with n stepper calls: |p| n K eps, direction n K eps (1+turn angle), position K eps h (1+n)(1+turn "
-        "angle). Declared untestable (accuracy oracles only): Dormand-Prince with epsilon_rel_max > 2e-3 (estimate "
+        "angle). Declared untestable (accuracy oracles only): Dormand-Prince with epsilon_rel_max > 1.5e-3 (estimate "
         "not monotone in the turn angle), and minimum_step x curvature > 0.3 (steps <= minimum_step carry no error "
         "control).");
     rep.assume(
